@@ -11,7 +11,7 @@ RULE = (
     "X1: request_suspend with pre/post plans in {none, pre, post, both} at every loop position of scan/count/two-motor/nested "
     "scenarios, a second overlapping suspension at every later position, an explicit release at every position after the request "
     "(including before the engine has reached its wait_for), and a real SuspendBoolHigh(sig, sleep=2) tripped/released by "
-    "sig.put(1)/sig.put(0) at every position (virtual time). Oracle per suspension that took effect in a resumable place: between "
+    "sig.put(1)/sig.put(0) at every position (virtual time), and a glitch (put(0);put(1) back-to-back) at every position after a trip; more than 6 messages after a trip was handled (and while the signal stays out of range) only suspension-helper messages execute. Oracle per suspension that took effect in a resumable place: between "
     "the helper's start and its _resume_from_suspender only 'rewindable', the pre-plan and 'wait_for' (and nested helpers) execute; "
     "every device set so far gets stop() before the pre-plan; _resume_from_suspender comes after the release (at release time + "
     "sleep for the real suspender), then the post-plan, 'rewindable', the replay (REPLAY-MODEL), and the caller's call does not "
@@ -24,13 +24,19 @@ SPECS = {
     "quick": [spec(k, SUS, bound=1) for k in ("scan2", "twomotors", "nested")]
     + [spec("tiny", [("suspend", "both"), ("release", 0), ("release", 1)], bound=2)]
     + [spec("suspreal", [("put", "sig", 1), ("put", "sig", 0), ("@once", "put")], bound=1)]
-    + [spec("suspreal", [("put", "sig", 1)], bound=1, sleep=0, plans=0)],
+    + [spec("suspreal", [("put", "sig", 1)], bound=1, sleep=0, plans=0)]
+    # trip, then a glitch (back to nominal and out again, back-to-back) at every later position, inside the settle time or not
+    + [spec("suspreal", [("put", "sig", 1), ("puts", "sig", 0, 1), ("@once", "put", "puts")], bound=2, sleep=s) for s in (0, 2)],
     "thorough": [spec(k, SUS, bound=1, a=a) for k in ("scan2", "twomotors", "nested", "count2", "grid22s", "cleanup") for a in (0, 1)]
     + [spec(k, [("suspend", "both"), ("suspend", "none"), ("release", 0), ("release", 1)], bound=2) for k in ("tiny", "count2")]
     + [spec("tiny", [("suspend", "both"), ("release", 0), ("release", 1)], bound=3)]
     + [spec("suspreal", [("put", "sig", 1), ("put", "sig", 0)], bound=2, sleep=s, a=a) for s in (0, 2) for a in (0, 1)]
-    + [spec(k, [("suspend", "both")], bound=1, ri=1) for k in ("scan2", "nested")],
+    + [spec(k, [("suspend", "both")], bound=1, ri=1) for k in ("scan2", "nested")]
+    + [spec("suspreal", [("put", "sig", 1), ("put", "sig", 0), ("puts", "sig", 0, 1), ("puts", "sig", 1, 0)], bound=3, sleep=s) for s in (0, 2)],
 }
+
+
+TRIP_LATENCY = 6  # request_suspend -> call_soon_threadsafe -> create_task -> cancel -> _run: at most this many messages
 
 
 def _helpers(obs):
@@ -149,6 +155,50 @@ def oracle(scn, obs, ref, schedule):
             t_res = tl[i_r][3]
             if abs(t_res - (t_rel + sleep)) > 1e-6 and t_res < t_rel + sleep - 1e-6:
                 out.append(("released-before-sleep-elapsed", f"signal went back at t={t_rel}, sleep={sleep}, resumed at t={t_res}"))
+    # 5b. real suspender: whenever a helper resumes the plan, the monitored signal is in range and has been for `sleep`
+    #     seconds without interruption ("no further plan message runs until the suspender's condition is released")
+    if scn.id == "suspreal":
+        sleep = scn.params.get("sleep", 2)
+        puts = [(t[4], t[2]) for t in tl if t[0] == "put" and t[1] == "sig"]
+        for i_s, i_r, m in helpers:
+            if i_r is None:
+                continue
+            t_res = tl[i_r][3]
+            before = [(tt, v) for tt, v in ((t[4], t[2]) for t in tl[:i_r] if t[0] == "put" and t[1] == "sig")]
+            if not before:
+                continue
+            if before[-1][1]:
+                continue  # a new trip is being handled concurrently with this resume: rule 5c
+            # start of the last uninterrupted in-range stretch
+            t_in = before[-1][0]
+            for tt, v in reversed(before):
+                if v:
+                    break
+                t_in = tt
+            if t_res < t_in + sleep - 1e-6:
+                out.append(("resumed-inside-settle-time", f"signal back in range since t={t_in}, sleep={sleep}, plan resumed at t={t_res}"))
+    # 5c. real suspender: once a trip (in range -> out of range, handled while a plan is running) is older than
+    #     TRIP_LATENCY engine messages and the signal has not come back, only suspension-helper messages execute
+    if scn.id == "suspreal":
+        high = bool(scn.params.get("initial", 0))
+        i = 0
+        while i < len(tl):
+            t = tl[i]
+            if t[0] == "sus_call":
+                was, high = high, bool(t[1])
+                if high and not was and t[2] not in (None, "idle", "paused"):
+                    n = 0
+                    for u in tl[i + 1 :]:
+                        if u[0] == "sus_call" and not u[1]:
+                            break
+                        if u[0] == "msg":
+                            n += 1
+                            mm = obs.msgs[u[1]]
+                            helper = mm.command in HELPER_CMDS or mm.command == "rewindable" or (mm.command == "null" and mm.args[:1] in (("PRE",), ("POST",)))
+                            if n > TRIP_LATENCY and not helper:
+                                out.append((f"plan-runs-while-tripped:trip-handled-in-state-{t[2]}", f"signal went out of range at t={t[3]} (engine {t[2]}) and stayed there; {n} messages later the plan message '{mm.command}' is executed"))
+                                break
+            i += 1
     # 6. the rewind itself
     rv, _stats = check_replay(obs)
     out.extend(rv)
